@@ -640,7 +640,7 @@ PROPS = {
         "level": "other", "explanation": "", "assumptions": [],
     },
     "C13": {
-        "module": "DnsModel.Theorems.C13", "theorems": ["Dns.C13.synth_total", "Dns.C13.rawNameFromStr_total"],
+        "module": "DnsModel.Theorems.C13", "theorems": ["Dns.C13.synth_total", "Dns.C13.rawNameFromStr_total", "Dns.C13.grammar_iff", "Dns.C13.excluded_is_error", "Dns.C13.wellformed"],
         "families": [{"name": "synth", "quick": 6000, "thorough": 400000}, {"name": "synth-insert", "quick": 1200, "thorough": 40000}],
         "oracle": oracle_c13, "nontrivial": lambda c, a: a.startswith("ok") or " ok b=" in a, "shrink": False,
         "rule": "record texts: 60% grammar-derived over the nine types with boundary values (TTL 0/2^32-1/2^32, 62/63-byte labels, 253/254-byte names, TXT 255/256/3825/3826 bytes and escapes, preference 65535/65536, digests of even/odd/zero length, 14 IPv6 forms), 30% single-token damage, 10% arbitrary bytes; plus insertion of the synthesised record into a valid response; non-trivial = distinct texts that synthesise",
